@@ -93,6 +93,7 @@ class FnTerms:
         self._in = None
         self._memo = {}
         self._calls = None
+        self.types = {}  # term -> MIR type string (first seen)
         self.stores = []  # writes through pointers: (block, pos, place, rv)
         self._compute_defs()
 
@@ -221,6 +222,8 @@ class FnTerms:
         else:
             t = self.call_term(kind[1], b)
         self._memo[key] = t
+        if not (kind[0] == "assign" and kind[1]["place"]["proj"]) and kind[0] != "escape":
+            self.types.setdefault(t, self.fn["locals"][local]["ty"])
         return t
 
     def _proj_desc(self, proj, b, pos):
@@ -246,7 +249,28 @@ class FnTerms:
         t = self.local_at(pl["local"], b, pos)
         for e in pl["proj"]:
             t = self.project(t, e, b, pos)
+        self.types.setdefault(t, pl["ty"])
         return t
+
+    def tyof(self, t):
+        ty = self.types.get(t)
+        if ty is not None:
+            return ty
+        if t[0] == "param":
+            return self.fn["locals"][t[1]]["ty"]
+        if t[0] == "phi":
+            return self.fn["locals"][t[3]]["ty"]
+        if t[0] == "const":
+            return t[4] if len(t) > 4 else None
+        if t[0] == "cast":
+            return t[3]
+        if t[0] == "bin":
+            if t[1] in ("Eq", "Ne", "Lt", "Le", "Gt", "Ge"):
+                return "bool"
+            return self.tyof(t[2])
+        if t[0] == "un":
+            return self.tyof(t[2])
+        return None
 
     def project(self, t, e, b, pos):
         k = e["k"]
@@ -267,7 +291,9 @@ class FnTerms:
         if k in ("copy", "move"):
             return self.place(op["place"], b, pos)
         if k == "const":
-            return const_term(op)
+            t = const_term(op)
+            self.types.setdefault(t, op.get("ty"))
+            return t
         if k == "fn":
             return value_term(op)
         return ("unknown", k, (self.path, b, pos))
